@@ -26,7 +26,7 @@ ANCHORS = ["dagrt.codegen.analysis:verify_code",
            "dagrt.codegen.analysis:verify_all_dependencies_exist",
            "dagrt.codegen.analysis:verify_switch_phases",
            "dagrt.codegen.analysis:verify_single_definition_cond_rule"]
-MIN_NONTRIVIAL = {"quick": 20000, "thorough": 200000}
+MIN_NONTRIVIAL = {"quick": 20000, "thorough": 1400000}
 REQUIRED_COUNTERS = {"quick": ["accepted", "rejected", "downstream_interp_runs", "downstream_pygen_runs"],
                      "thorough": ["accepted", "rejected", "downstream_interp_runs", "downstream_pygen_runs",
                                   "downstream_fortran_runs"]}
@@ -41,7 +41,7 @@ def plan(tier, seed):
     sh = []
     for k in range(NSHARDS):
         sh.append({"kind": "exh", "k": k, "n": NSHARDS, "tier": tier})
-    nrand = 600 if tier == "quick" else 12000
+    nrand = 600 if tier == "quick" else 120000
     for k in range(NSHARDS):
         sh.append({"kind": "rand", "seed": f"C10:{seed}:{k}", "count": nrand, "tier": tier})
     return sh
